@@ -33,7 +33,7 @@ EXPLANATION = (
 NOT_DECIDED = ["floating-point agreement with the closed forms", "np.linalg.eigvalsh / np.histogram internals", "nematic order parameter, dipole moments, dielectric constant, isothermal compressibility, inertia tensor",
                "the numerical values of the published Karplus coefficients"]
 ASSUMPTIONS = ["np.linalg.eigvalsh returns eigenvalues in ascending order", "1 amu / nm^3 = 1.66053907 kg / m^3"]
-FLOORS = {"C16-R1": 8, "C16-R2": 8, "C16-R3": 6, "C16-R4": 6, "C16-R5": 12, "C16-R6": 3, "C16-R7": 8, "C16-R8": 9}
+FLOORS = {"C16-R1": 8, "C16-R2": 7, "C16-R3": 6, "C16-R4": 6, "C16-R5": 12, "C16-R6": 3, "C16-R7": 8, "C16-R8": 9}
 
 MOM = "mdtraj/geometry/src/moments.cpp"
 DRIDC = "mdtraj/geometry/src/dridkernels.cpp"
@@ -126,20 +126,52 @@ def r2(ctx):
     fn = cf.function(DRIDC, "drid_moments")
     ctx.analysed_files.add(DRIDC)
     ctx.analysed_functions.add(DRIDC + ":drid_moments")
-    decl = {v.get("name"): _n(C.text(C.kids(v)[-1])) for v in C.walk(fn) if v["kind"] == "VarDecl" and C.kids(v) and v.get("name") in ("x", "y", "r", "d")}
-    ok = decl.get("x", "").startswith("fvec4(coords[(3*index)]") and decl.get("y", "").startswith("fvec4(coords[(3*partners[i])]") and decl.get("r") in ("(x-y)", "(y-x)") and decl.get("d") == "dot3(r,r)"
-    ctx.decide(ok, "C16-R2", C.line(fn), DRIDC, "drid_moments", "d = |coords[index] - coords[partner_i]|^2", "", "distance quantities are %s" % decl)
-    push = [n for n in C.walk(fn) if n["kind"] == "CallExpr" and C.callee_name(n) == "moments_push"]
-    ok = len(push) == 1 and _n(C.text(C.call_args(push[0])[1])) in ("(1.0/sqrt(d))", "(1.0/sqrt((double)d))")
-    ctx.decide(ok, "C16-R2", C.line(push[0]) if push else C.line(fn), DRIDC, "drid_moments", "the reciprocal distance 1/sqrt(d) is pushed", "", "pushed value is %s" % (C.text(C.call_args(push[0])[1]) if push else None))
+    # value numbering of the whole function for a generic partner (symbolic loop variable); the moment accumulator is an opaque object
     loops = [n for n in C.walk(fn) if n["kind"] == "ForStmt"]
-    ok = len(loops) == 1 and _n(C.text(C.kids(loops[0])[1])) == "(i<n_partners)" and any(x is push[0] for x in C.walk(loops[0])) if push else False
-    ctx.decide(ok, "C16-R2", C.line(fn), DRIDC, "drid_moments", "one push per partner (i < n_partners)", "", "partner loop changed")
-    stores = {_n(C.text(C.kids(n)[0])): _n(C.text(C.kids(n)[1])) for n in C.walk(fn) if n["kind"] == "BinaryOperator" and n.get("opcode") == "=" and C.root_var(C.kids(n)[0])[0] == "moments"}
-    want = {"moments[0]": "moments_mean((&onlinemoments))", "moments[1]": "sqrt(moments_second((&onlinemoments)))", "moments[2]": "cbrt(moments_third((&onlinemoments)))"}
-    ctx.decide(stores == want, "C16-R2", C.line(fn), DRIDC, "drid_moments", "(mean, sqrt(second), cbrt(third))", "", "stored moments are %s" % stores)
-    clr = [n for n in C.walk(fn) if n["kind"] == "CallExpr" and C.callee_name(n) == "moments_clear"]
-    ctx.decide(len(clr) == 1 and C.line(clr[0]) < C.line(loops[0]) if loops else False, "C16-R2", C.line(fn), DRIDC, "drid_moments", "accumulator cleared before the loop", "", "moments_clear is not called before the partner loop")
+    lv = None
+    if len(loops) == 1:
+        init = [x for x in loops[0].get("inner", []) if isinstance(x, dict) and "kind" in x][0]
+        lv = ([v.get("name") for v in C.kids(init) if v["kind"] == "VarDecl"] or [None])[0] if init.get("kind") == "DeclStmt" else C.ref_name(C.kids(init)[0])
+    if lv is None:
+        raise AnalysisError("drid_moments: partner loop not recognised")
+    events = []
+
+    def model(name, args, n_, st_, ex_):
+        if name.startswith("moments_"):
+            events.append((name, args))
+            if name in ("moments_mean", "moments_second", "moments_third"):
+                return Rat(Poly.var(name))
+            return Rat(Poly.const(0))
+        return None
+    ex = SymExec(cf, DRIDC, call_model=model, symbolic_loops={lv})
+    try:
+        outs = ex.run(C.kids(C.body_of(fn)), State())
+    except CUnsupported as e:
+        raise AnalysisError("drid_moments: %s" % e)
+    pn = [p_.get("name") for p_ in C.fparams(fn)]     # coords, index, partners, n_partners, moments
+    if len(outs) != 1 or len(pn) != 5:
+        raise AnalysisError("drid_moments: unexpected shape (%d paths, %d parameters)" % (len(outs), len(pn)))
+    o = outs[0]
+    names = [e_[0] for e_ in events]
+    ctx.decide(names[:1] == ["moments_clear"] and names.count("moments_push") == 1 and names.index("moments_push") > 0, "C16-R2", C.line(fn), DRIDC, "drid_moments",
+               "accumulator cleared first, one push per partner", "", "moment calls are %s" % names)
+    cond = _n(C.text(C.kids(loops[0])[1]))
+    ctx.decide(cond == "(%s<%s)" % (lv, pn[3]), "C16-R2", C.line(loops[0]), DRIDC, "drid_moments", "the loop visits every partner (i < n_partners)", "", "partner loop condition is %s" % cond)
+    push = [e_ for e_ in events if e_[0] == "moments_push"]
+    ok = False
+    got = None
+    if push:
+        got = push[0][1][1]
+        ci = Rat(Poly.var(pn[1]))
+        pj = Rat(Poly.var("%s[%s]" % (pn[2], lv)))
+        a_ = [Rat(Poly.var("%s[%s]" % (pn[0], repr(3 * ci + k) if k else repr(3 * ci)))) for k in range(3)]
+        b_ = [Rat(Poly.var("%s[%s]" % (pn[0], repr(3 * pj + k) if k else repr(3 * pj)))) for k in range(3)]
+        d2 = sum(((a_[k] - b_[k]) * (a_[k] - b_[k]) for k in range(3)), Rat(Poly.const(0)))
+        ok = got == Rat(Poly.const(1)) / ex.opaque_call("sqrt", [d2])
+    ctx.decide(ok, "C16-R2", C.line(fn), DRIDC, "drid_moments", "the value pushed is 1/|coords[index] - coords[partner]|", "", "the value pushed for a partner is %s" % (repr(got)[:200],))
+    want = [Rat(Poly.var("moments_mean")), ex.opaque_call("sqrt", [Rat(Poly.var("moments_second"))]), ex.opaque_call("cbrt", [Rat(Poly.var("moments_third"))])]
+    gotm = [o.env.get((pn[4], k)) for k in range(3)]
+    ctx.decide(all(g is not None and g == w for g, w in zip(gotm, want)), "C16-R2", C.line(fn), DRIDC, "drid_moments", "moments = (mean, sqrt(second), cbrt(third))", "", "stored moments are %s" % gotm)
     # partners in the wrapper
     fnp = ctx.py.func(DRIDP, "compute_drid")
     ctx.analysed_files.add(DRIDP)
